@@ -166,17 +166,17 @@ Proof.
       destruct (lin_of l) as [a1|] eqn:E1; try discriminate; destruct (lin_of r) as [a2|] eqn:E2; try discriminate.
     + apply andb_true_iff in T as [T1 T2]. destruct (IHl a1 T1 eq_refl) as [D1 V1]. destruct (IHr a2 T2 eq_refl) as [D2 V2].
       inversion H; subst. cbn [lin_add l_den]. rewrite D1, D2. split; [reflexivity|].
-      cbn [eval]. rewrite V1, V2. cbn [eval_bin]. f_equal. unfold lin_val. cbn [l_c l_vs].
-      rewrite vsum_app, !vsum_scale. lia.
+      cbn [eval]. rewrite V1, V2. cbn [eval_bin]. f_equal. unfold lin_val. cbn [lin_add l_c l_vs l_den].
+      rewrite D1, D2, vsum_app, !vsum_scale. lia.
     + apply andb_true_iff in T as [T1 T2]. destruct (IHl a1 T1 eq_refl) as [D1 V1]. destruct (IHr a2 T2 eq_refl) as [D2 V2].
       inversion H; subst. cbn [lin_sub lin_add lin_neg l_den]. rewrite D1, D2. split; [reflexivity|].
-      cbn [eval]. rewrite V1, V2. cbn [eval_bin]. f_equal. unfold lin_val. cbn [l_c l_vs].
-      rewrite vsum_app, !vsum_scale. lia.
+      cbn [eval]. rewrite V1, V2. cbn [eval_bin]. f_equal. unfold lin_val. cbn [lin_sub lin_add lin_neg l_c l_vs l_den].
+      rewrite D1, D2, vsum_app, !vsum_scale. lia.
     + apply andb_true_iff in T as [T _]. apply andb_true_iff in T as [T1 T2].
       destruct (IHl a1 T1 eq_refl) as [D1 V1]. destruct (IHr a2 T2 eq_refl) as [D2 V2].
       cbn [eval]. rewrite V1, V2. cbn [eval_bin]. unfold lin_mul in H.
       destruct (lin_isconst a1) eqn:C1; [|destruct (lin_isconst a2) eqn:C2; [|discriminate]]; inversion H; subst;
-        cbn [lin_mulc l_den]; rewrite D1, D2; (split; [reflexivity|]); f_equal; unfold lin_val; cbn [l_c l_vs]; rewrite vsum_scale.
+        cbn [lin_mulc l_den]; rewrite D1, D2; (split; [reflexivity|]); f_equal; unfold lin_val; cbn [lin_mulc l_c l_vs]; rewrite vsum_scale.
       * rewrite (isconst_vsum s a1 C1). lia.
       * rewrite (isconst_vsum s a2 C2). lia.
 Qed.
